@@ -2,6 +2,7 @@ import EupsModel.Drv.Util
 import EupsModel.Model.Cond
 import EupsModel.Model.CondPinned
 import EupsModel.Model.TableParse
+import EupsModel.Model.SetupType
 namespace EupsModel.Drv.C11
 open Lean EupsModel EupsModel.Drv EupsModel.Cond EupsModel.TableParse
 
@@ -79,6 +80,23 @@ def handle : Handler := fun j => do
       | .ok d => pure (Json.mkObj [("out", "ok"), ("opts", dictJson d)])
       | .err e => pure (errJson e)
       | .fuel => pure (Json.mkObj [("out", "fuel")])
+  | "setuptype" =>
+    -- {"arg": null | "text" | ["t", …], "exact": bool, "valid": […], "via": "init" | "cmd" | "setup"}
+    let valid ← jstrs j "valid"
+    let exact := match j.getObjVal? "exact" with | .ok (Json.bool b) => b | _ => false
+    let via := match j.getObjVal? "via" with | .ok (Json.str s) => s | _ => "init"
+    let arg : SetupType.Arg ← match j.getObjVal? "arg" with
+      | .ok (Json.str _) => do
+        let s ← jstr j "arg"
+        pure (if via == "cmd" then SetupType.cmdArg s else SetupType.Arg.str s)
+      | .ok (Json.arr _) => do pure (SetupType.Arg.list (← jstrs j "arg"))
+      | _ => pure SetupType.Arg.none
+    match SetupType.normTypes valid arg exact with
+    | some (ts, ex) => pure (Json.mkObj [("out", "ok"), ("types", ofStrs ts), ("exact", ex)])
+    | none => pure (Json.mkObj [("out", "err"), ("err", "EupsException")])
+  | "deptypes" =>
+    let fe := match j.getObjVal? "followExact" with | .ok (Json.bool b) => b | _ => false
+    pure (Json.mkObj [("out", "ok"), ("types", ofStrs (SetupType.depTypes fe (← jstrs j "types")))])
   | "parse" =>
     let v ← variantOf j
     match parse v (← jstrOpt j "pdir") (← jstr j "text") with
